@@ -109,10 +109,11 @@ class Analysis:
         "core::convert::num::<impl core::convert::From<bool> for usize>::from": (0, 1),
     }
 
-    def __init__(self, view, arg_intervals=None, summaries=None, ret_len=None):
+    def __init__(self, view, arg_intervals=None, summaries=None, ret_len=None, ret_discr=None):
         self.v = view
         self.body = view.body
         self.summaries = summaries or {}
+        self.ret_discr = ret_discr  # callback: (callee key, call terminator, analysis, state) -> discriminant interval
         self.ret_len = ret_len     # callback: (callee key, call terminator, analysis) -> interval of returned slice length
         self.arg_intervals = arg_intervals or {}
         self.nl = view.nlocals
@@ -690,6 +691,8 @@ class Analysis:
             new_sym = {}
             if rv["r"] == "agg" and rv.get("kind") in ("tuple", "adt"):
                 pre = (("dc", rv["vidx"]),) if (rv.get("kind") == "adt" and self._is_enum(rv["def"])) else ()
+                if pre:
+                    new_paths[(("discr",),)] = (rv["vidx"], rv["vidx"])
                 for i, o in enumerate(rv["ops"]):
                     iv, _ = self.eval_operand(st, o)
                     if o.get("o") in ("copy", "move") and not o["p"] and o["l"] in st.sym \
@@ -866,6 +869,11 @@ class Analysis:
             n_iv = self.ret_len(name, t, self)
             if n_iv is not None:
                 ref_len = ("iv", n_iv)
+        elif self.ret_discr is not None and name in self.v.prog.bodies and rng is None \
+                and self.v.local_ty(d)["k"] == "adt" and self._is_enum(self.v.local_ty(d)["n"]):
+            dv = self.ret_discr(name, t, self, st)
+            if dv is not None:
+                paths[(("discr",),)] = dv
         elif name in ("core::slice::<impl [T]>::split_at", "core::slice::<impl [T]>::split_at_mut") \
                 and len(args) == 2 and a0_local is not None:
             mid, _ = self.eval_operand(st, args[1])
@@ -1176,6 +1184,19 @@ class Analysis:
                     if s not in inwork:
                         work.append(s)
                         inwork.add(s)
+
+    def return_discr(self):
+        """Interval of the discriminant of the enum value this function returns (None if unknown)."""
+        out = None
+        for b in self.v.return_blocks():
+            st = self.state_before_term(b)
+            if st is None:
+                continue
+            iv = st.iv.get(("pl", 0, (("discr",),)))
+            if iv is None:
+                return None
+            out = iv if out is None else join(out, iv)
+        return out
 
     def return_len(self):
         """Interval of the length of the slice reference this function returns (None if unknown)."""
